@@ -16,6 +16,7 @@
   `TS_MIN/TS_MAX` = first/last representable second).  `/`, `%` on `Int` are floor division and its remainder.
 -/
 import Chrono.Proofs.SerdeL
+import Chrono.Model.SerdeStr
 import Chrono.Extracted.SerdeLits
 import Chrono.Props.C19
 
@@ -410,7 +411,39 @@ theorem names_roundtrip (F : StrFormat) (hF : F.Faithful) :
     unfold strDeserialize strSerialize
     rw [hF]; dsimp only; rw [C19.month_parse_name]; rfl
 
+/-! ## zone-aware date-times: the text form (composed from the writer of C12 and the reader of C13/C14) -/
+
+/-- Kernel-checked witnesses of the known findings F20 and F22, independent of any reader: the text written
+for a zone-aware value does not determine the instant.  (F20) 12:34:06 at +01:00:50 and 12:34:06 at +01:01 —
+ten seconds apart — are both written "2014-07-24T12:34:06+01:01": the offset is rounded to whole minutes, the
+wall clock kept.  (F22) 00:00:30 with nanosecond field 1.5·10⁹ (a leap-second representation on a second
+other than :59) and the ordinary 00:00:31.5 are both written "1970-01-01T00:00:31.500Z".  So no reader can
+restore the instant for offsets with a seconds part, nor such leap representations; for whole-minute offsets
+and leap seconds on :59 the round trip is compared on the implementation (harness) and is the subject of
+Props/C09 / Props/C10. -/
+theorem datetime_text_collisions :
+    DateTimeStr.serialize ⟨⟨dateOfYo 2014 205, ⟨41596, 0⟩⟩, 3650⟩ = .ok (some [50, 48, 49, 52, 45, 48, 55, 45, 50, 52, 84, 49, 50, 58, 51, 52, 58, 48, 54, 43, 48, 49, 58, 48, 49]) ∧
+    DateTimeStr.serialize ⟨⟨dateOfYo 2014 205, ⟨41586, 0⟩⟩, 3660⟩ = .ok (some [50, 48, 49, 52, 45, 48, 55, 45, 50, 52, 84, 49, 50, 58, 51, 52, 58, 48, 54, 43, 48, 49, 58, 48, 49]) ∧
+    zonedInstNs ⟨⟨dateOfYo 2014 205, ⟨41596, 0⟩⟩, 3650⟩ - zonedInstNs ⟨⟨dateOfYo 2014 205, ⟨41586, 0⟩⟩, 3660⟩
+      = 10 * 1000000000 ∧
+    DateTimeStr.serialize ⟨⟨dateOfYo 1970 1, ⟨30, 1500000000⟩⟩, 0⟩ = .ok (some [49, 57, 55, 48, 45, 48, 49, 45, 48, 49, 84, 48, 48, 58, 48, 48, 58, 51, 49, 46, 53, 48, 48, 90]) ∧
+    DateTimeStr.serialize ⟨⟨dateOfYo 1970 1, ⟨31, 500000000⟩⟩, 0⟩ = .ok (some [49, 57, 55, 48, 45, 48, 49, 45, 48, 49, 84, 48, 48, 58, 48, 48, 58, 51, 49, 46, 53, 48, 48, 90]) := by
+  decide +kernel
+
+/-- Kernel-checked witnesses of the known findings F21, F23, F24 on the writer side (that the reader refuses
+these texts is compared with the crate on every run, ops `sd.dt.de`): serializing never fails or panics at
+the range ends (finding F06, repaired), but (F21) `MAX_UTC` seen at +01:00 is written with the year +262143,
+which is no `NaiveDate`; (F23) an offset of +23:59:59 is written "+24:00", outside the reader's ±23:59;
+(F24) `MIN_UTC` seen at +00:00:31 is written "…T00:00:31+00:01", i.e. as an instant 29 s before `MIN_UTC`. -/
+theorem datetime_text_beyond_reader :
+    DateTimeStr.serialize ⟨NaiveDT.MAX, 3600⟩ = .ok (some [43, 50, 54, 50, 49, 52, 51, 45, 48, 49, 45, 48, 49, 84, 48, 48, 58, 53, 57, 58, 53, 57, 46, 57, 57, 57, 57, 57, 57, 57, 57, 57, 43, 48, 49, 58, 48, 48]) ∧
+    DateTimeStr.serialize ⟨NaiveDT.MIN, -3600⟩ = .ok (some [45, 50, 54, 50, 49, 52, 52, 45, 49, 50, 45, 51, 49, 84, 50, 51, 58, 48, 48, 58, 48, 48, 45, 48, 49, 58, 48, 48]) ∧
+    DateTimeStr.serialize ⟨⟨dateOfYo 1970 2, ⟨0, 0⟩⟩, 86399⟩ = .ok (some [49, 57, 55, 48, 45, 48, 49, 45, 48, 50, 84, 50, 51, 58, 53, 57, 58, 53, 57, 43, 50, 52, 58, 48, 48]) ∧
+    DateTimeStr.serialize ⟨NaiveDT.MIN, 31⟩ = .ok (some [45, 50, 54, 50, 49, 52, 51, 45, 48, 49, 45, 48, 49, 84, 48, 48, 58, 48, 48, 58, 51, 49, 43, 48, 48, 58, 48, 49]) := by
+  decide +kernel
+
 /-! ## string forms of dates, times and date-times -/
+
 
 /-- The serde glue of `NaiveDate`, `NaiveTime`, `NaiveDateTime` (writer = `Debug`, reader = `FromStr`) and
 `DateTime<Tz>` (writer = RFC 3339 `AutoSi` with `Z`, reader = `FromStr for DateTime<FixedOffset>`) adds nothing
